@@ -499,6 +499,9 @@ func (e *env) loadByReplication(rt *rapid.T, window, total int) string {
 	// launch order. A launched replicator whose predecessor is not launched yet waits inside its precommit and keeps
 	// a tx holder of the pool (MaxConcurrency holders): at most MaxConcurrency-1 may wait, one holder stays free for
 	// the lowest transaction not launched yet.
+	// The launcher itself keeps at most `slots` calls in flight; with `slots`-1 waiting ones at most, a full house always
+	// contains a call that does not wait for anybody and returns.
+	slots := min(12, e.maxConc)
 	launched := make([]bool, total)
 	var order []int
 	lo := 0
@@ -519,7 +522,7 @@ func (e *env) loadByReplication(rt *rapid.T, window, total int) string {
 			break
 		}
 		pick := lo
-		if waiting() < e.maxConc-1 {
+		if waiting() < slots-1 {
 			var cand []int
 			for k := lo; k < total && k < lo+window; k++ {
 				if !launched[k] {
@@ -568,7 +571,7 @@ func (e *env) loadByReplication(rt *rapid.T, window, total int) string {
 	for _, i := range order {
 		i := i
 		// never more calls in flight than the store has tx holders (fewer than all of them wait for a predecessor, so one always returns)
-		for inFlight >= min(12, e.maxConc) {
+		for inFlight >= slots {
 			select {
 			case r := <-results:
 				take(r)
